@@ -78,7 +78,19 @@ fn decode(tape: &[u32]) -> Case {
     let calls: Vec<Call> = (0..ncalls).map(|_| Call { batch: t.usize(1, 4), epochs: t.usize(1, 4) as i32, n: t.usize(1, 6), dseed: t.raw(), val_tol: [None, None, Some(1), Some(2), Some(1000)][t.pick(5)] }).collect();
     // validate() is only implemented for networks that end in a dense layer
     let calls = calls.into_iter().map(|mut c| { if !tail_dense { c.val_tol = None; } c }).collect();
-    Case { spec: NetSpec { input, layers }, block, kind, calls, wseed: t.raw() }
+    let wseed = t.raw();
+    // (drawn last) one case in four: a second block of the same kind directly behind the first (same layer list and
+    // coupling, 2-3 repetitions, no internal skips) - every block of a network has to stay tied
+    if t.chance(1, 4) {
+        let mut second = layers[block].clone();
+        if let LayerSpec::Feedback { loops, inskips, outskips, .. } = &mut second {
+            *loops = t.usize(2, 3);
+            *inskips = false;
+            *outskips = false;
+        }
+        layers.insert(block + 1, second);
+    }
+    Case { spec: NetSpec { input, layers }, block, kind, calls, wseed }
 }
 
 fn model_param_count(spec: &NetSpec) -> usize {
@@ -148,6 +160,9 @@ fn check(case: &Case, ev: &mut CaseEv) -> CheckResult {
     ev.class(format!("acc:{:?}", acc));
     ev.class(format!("optimizer:{}", case.kind.name()));
     ev.class(format!("loops{}", loops));
+    if matches!(spec.layers.get(case.block + 1), Some(LayerSpec::Feedback { .. })) {
+        ev.class("two blocks in one network");
+    }
     ev.class(if kernel_block { "kernel block" } else { "dense block" });
     if case.spec.input.len() == 1 && case.spec.input[0] > 64 {
         ev.class("wide dense block (65-140 rows)");
@@ -218,6 +233,11 @@ fn check(case: &Case, ev: &mut CaseEv) -> CheckResult {
             ev.discard = Some("non-finite weights");
             return Ok(());
         }
+        if let Some(LayerSpec::Feedback { layers: inner2, loops: loops2, .. }) = spec.layers.get(case.block + 1) {
+            if let Err(m) = tied(&net, case.block + 1, inner2.len(), *loops2) {
+                fail!("after learn call {} ({} epochs, batch {}, {} samples, optimizer {}): second block of the network: {}; block {:?}", ci, call.epochs, call.batch, call.n, case.kind.name(), m, spec.layers[case.block + 1]);
+            }
+        }
         if let Err(m) = tied(&net, case.block, len, loops) {
             fail!("after learn call {} ({} epochs, batch {}, {} samples, optimizer {}): {}; block {:?}", ci, call.epochs, call.batch, call.n, case.kind.name(), m, spec.layers[case.block]);
         }
@@ -245,7 +265,7 @@ impl Prop for C10 {
         Some(2)
     }
     fn rule(&self) -> String {
-        "tape-decoded history: small network = optional shape-keeping prefix layer + feedback block (1-3 dense layers, or 1-2 shape-preserving convolution / deconvolution layers; bias on/off; one case in 40 with widths 65-140; loops 1-4; any skip flags; coupling accumulation in {add, subtract, multiply, mean}) + optional dense layer; one of five optimizers with option variants; 1-4 learn() calls with batch 1-4, 1-4 epochs, with or without validation data (early-stopping tolerance 1, 2 or 1000), 1-6 samples (a quarter of them all-zero), learning rates from 1e-5 to 0.1. Invariant after creation and after every call: all unrolled repetitions of every block layer hold bit-identical weights, biases and kernels (read through the hooks), and the `parameters:` number of the Display text equals the model count with each shared parameter once. Kernel blocks with subtract / multiply coupling abort the first step with 'Invalid sub./mul.' (refused loudly: classified unsupported, not asserted on); NaN-diverged runs are discards. Non-trivial: loops >= 2 and weights changed. Distinct = (block and network specification, optimizer, call pattern).".into()
+        "tape-decoded history: small network = optional shape-keeping prefix layer + feedback block (1-3 dense layers, or 1-2 shape-preserving convolution / deconvolution layers; bias on/off; one case in 40 with widths 65-140; loops 1-4; any skip flags; coupling accumulation in {add, subtract, multiply, mean}) (in one case of four followed by a second block of the same kind with 2-3 repetitions, which has to stay tied as well) + optional dense layer; one of five optimizers with option variants; 1-4 learn() calls with batch 1-4, 1-4 epochs, with or without validation data (early-stopping tolerance 1, 2 or 1000), 1-6 samples (a quarter of them all-zero), learning rates from 1e-5 to 0.1. Invariant after creation and after every call: all unrolled repetitions of every block layer hold bit-identical weights, biases and kernels (read through the hooks), and the `parameters:` number of the Display text equals the model count with each shared parameter once. Kernel blocks with subtract / multiply coupling abort the first step with 'Invalid sub./mul.' (refused loudly: classified unsupported, not asserted on); NaN-diverged runs are discards. Non-trivial: loops >= 2 and weights changed. Distinct = (block and network specification, optimizer, call pattern).".into()
     }
     fn assumptions(&self) -> Vec<String> {
         vec!["'supported coupling' follows the code's own loud refusals: Overwrite is unimplemented!, subtract/multiply for kernel blocks panic before any state is observable".into()]
